@@ -127,16 +127,35 @@ def translate(which=None):
     from translate import ALL
     changed = []
     errors = []
+    index_path = os.path.join(GEN, '.index.json')
     with LakeLock():
+        try:
+            index = json.load(open(index_path))
+        except Exception:
+            index = {}
         for name, fn in ALL.items():
             if which is not None and name not in which:
-                continue
+                # the compiled driver imports every layer, so every generated file must at least EXIST: a generator that
+                # has never run in this workspace (fresh restore, a translator added since setup) runs once here
+                paths = index.get(name)
+                if paths and all(os.path.exists(os.path.join(LEAN, q)) for q in paths):
+                    continue
             try:
+                outs = []
                 for path, text in fn():
+                    outs.append(os.path.relpath(path, LEAN))
                     if write_if_changed(path, text):
                         changed.append(os.path.relpath(path, LEAN))
+                index[name] = outs
             except Exception as e:  # a translator that cannot read the tree is reported, not hidden
                 errors.append('%s: %s: %s' % (name, type(e).__name__, e))
+        try:
+            os.makedirs(GEN, exist_ok=True)
+            with open(index_path + '.tmp', 'w') as f:
+                json.dump(index, f)
+            os.replace(index_path + '.tmp', index_path)
+        except OSError:
+            pass
     return changed, errors
 
 
